@@ -5,7 +5,9 @@ usage: redetect.py <seed-id> ...      e.g. redetect.py C01-7 C13-8"""
 import json, pathlib, re, shutil, subprocess, sys
 
 VERIF = pathlib.Path("/verif")
-EXTRA = {"C14": ["C14", "C07"], "C07": ["C07", "C14"], "C09": ["C09", "C18"], "C03": ["C03", "C19"], "C19": ["C19", "C03"],
+import os
+FIRST_ONLY = os.environ.get("REDETECT_FIRST_ONLY") == "1"
+EXTRA = {"C14": ["C14", "C07"], "C07": ["C07", "C14"], "C09": ["C09", "C18"], "C03": ["C03", "C19", "C01", "C10"], "C19": ["C19", "C03"],
          "C11": ["C11", "C10"], "C16": ["C16", "C02", "C10"], "C02": ["C02", "C16", "C03"], "C01": ["C01", "C10", "C11", "C15"],
          "C13": ["C13", "C10"], "C04": ["C04", "C03"], "C05": ["C05", "C11", "C14"], "C15": ["C15", "C10"], "C17": ["C17", "C13", "C10"],
          "C18": ["C18", "C09"], "C12": ["C12", "C10"], "C08": ["C08", "C10"], "C10": ["C10", "C11"]}
@@ -24,7 +26,7 @@ for sid in sys.argv[1:]:
         a = sh(f"git -C /repo apply --3way {d / 'patch.diff'}")
     if a.returncode:
         print(sid, "PATCH DOES NOT APPLY", a.stderr[-200:])
-        sh("git -C /repo checkout -- . && git -C /repo reset -q")
+        sh("git -C /repo reset -q --hard HEAD")
         continue
     save = pathlib.Path("/tmp/seedchk/evsave")
     save.mkdir(parents=True, exist_ok=True)
@@ -36,8 +38,10 @@ for sid in sys.argv[1:]:
             r = sh(f"./check {cid} --tier quick", cwd=VERIF)
             lines = [l[:300] for l in r.stdout.splitlines() if re.match(r"VIOLATION|KNOWN-FINDING|\[C", l)]
             out[cid] = {"exit": r.returncode, "lines": lines[:6]}
+            if FIRST_ONLY and r.returncode == 1 and any(l.startswith("VIOLATION") for l in lines):
+                break           # a full pass over every seed: the first check that catches it is enough
     finally:
-        sh("git -C /repo reset -q; git -C /repo checkout -- .")
+        sh("git -C /repo reset -q --hard HEAD")
         for f in save.glob("*.json"):
             shutil.copy(f, VERIF / "evidence" / f.name)
     caught = [c for c, v in out.items() if v.get("exit") == 1 and any(l.startswith("VIOLATION") for l in v["lines"])]
